@@ -277,7 +277,12 @@ def _run_scenario(spec, res):
                     _report_violation(spec, res, eng, model or {}, o.label,
                                       dict(index=[], impl="shape %s" % (_shape(o.impl),), oracle="shape %s" % (_shape(o.oracle),)), "shape")
                     continue
-                goals = [(idx, eqv(a, b), eqv_strong(a, b)) for (idx, a), (_, b) in zip(_cells(o.impl), _cells(o.oracle))]
+                goals = []
+                for (idx, a), (_, b) in zip(_cells(o.impl), _cells(o.oracle)):
+                    if a is None or b is None:
+                        goals.append((idx, a is None and b is None, None))     # None is a value of its own, not NaN
+                    else:
+                        goals.append((idx, eqv(a, b), eqv_strong(a, b)))
             for idx, goal, strong in goals:
                 res.vcs += 1
                 r = prove(eng, goal, timeouts=timeouts, strong=strong)
